@@ -787,13 +787,58 @@ class C15(Check):
                 if h != f[:n] and (name.startswith("ip6-") and n > 58 or name.startswith("igmp")):
                     cases.append(frame_case(h, "trunc+csum %s %d" % (name, n)))
         seen = set(c["hex"] for c in cases)
-        for c in itertools.chain(self.tcp_tail_cases(), self.dhcp_code_cases()):
+        for c in itertools.chain(self.tcp_tail_cases(), self.dhcp_code_cases(), self.nd_option_cases(), self.mptcp_cases()):
             if c["hex"] not in seen:
                 seen.add(c["hex"]); cases.append(c)
         return cases
 
     def _csum_family(self, name):
         return name.startswith("igmp") or name.startswith("icmp-") or (name.startswith("ip6-") and self._l4off.get(name) is not None)
+
+    def nd_option_cases(self):
+        """ICMPv6 neighbour discovery, directed (HARDENING 6: the option walker is only reached with a CORRECT ICMPv6 checksum, and an option
+        whose Length grows only `fits` when the bytes behind it exist — no single-byte mutation or truncation of a valid frame gets there):
+        every ND message kind (RS, RA, NS, NA) x every option type the code knows (1, 2 link-layer address, 3 prefix information, 5 MTU) and an
+        unknown one (14) x Length 0..4 x the option fits / the buffer ends 3 octets early / a whole 8 octets early, alone, behind a valid
+        option and in front of one; checksum computed over the final message."""
+        fixed = {133: bytes(4), 134: bytes([64, 0xc0]) + struct.pack("!HII", 1800, 0, 0), 135: bytes(4) + FR.IP6_A, 136: b"\x60\0\0\0" + FR.IP6_A}
+        good = bytes([1, 1]) + FR.MAC_A
+        for kind, fx in fixed.items():
+            for t in (1, 2, 3, 5, 14):
+                for L in range(5):
+                    full = bytes([t, L]) + bytes((7 * i + t) & 0xff for i in range(max(L, 1) * 8 - 2))
+                    shapes = [("fits", full), ("fits+opt", full + good), ("short3", full[:-3])]
+                    if L >= 2: shapes.append(("short8", full[:-8]))
+                    for pre in (b"", good):
+                        for nm, opt in shapes:
+                            f = FR.eth(0x86dd, FR.ip6(58, FR.icmp6(kind, 0, fx + pre + opt)))
+                            yield frame_case(f, "ndopt %d t%d L%d %s%s" % (kind, t, L, nm, "+pre" if pre else ""))
+
+    def mptcp_cases(self):
+        """TCP segments carrying the MPTCP option (kind 30), directed: every subtype nibble 0..15 x every option length 3..40 x a few values of
+        the octet behind the subtype (flags / address id), the DSS subtype with ALL 256 flag octets at the length those flags call for (and one
+        octet off), and option areas filled to the brim (40 octets) with repeated options — what parses must print and re-serialise."""
+        def seg(opts, payload=b"data"):
+            opts = opts + b"\x01" * ((-len(opts)) % 4)
+            return FR.eth(0x0800, FR.ip4(6, FR.tcp(1000, 80, payload, opts=opts)))
+        for st in range(16):
+            for ln in range(3, 41):
+                for b3 in ((0x00, 0x01, 0x81, 0xff) if ln >= 4 else (0,)):
+                    body = bytes([30, ln, st << 4]) + (bytes([b3]) + bytes((5 * i + st) & 0xff for i in range(ln - 4)) if ln >= 4 else b"")
+                    yield frame_case(seg(body), "mptcp st%d len%d b3=%02x" % (st, ln, b3))
+        for flags in range(256):
+            al = 0 if not flags & 1 else (8 if flags & 2 else 4); dl = 0 if not flags & 4 else (8 if flags & 8 else 4)
+            good = 4 + al + dl + (8 if flags & 4 else 0)
+            for ln in (good, good + 1, good - 1):
+                if 4 <= ln <= 40:
+                    body = bytes([30, ln, 0x20, flags]) + bytes((3 * i + 1) & 0xff for i in range(ln - 4))
+                    yield frame_case(seg(body), "mptcp dss flags=%02x len%d" % (flags, ln))
+        for st in (0, 2, 3, 8, 9, 15):
+            for ln in (4, 5, 8, 10, 20, 40):
+                one = bytes([30, ln, st << 4]) + bytes(ln - 3)
+                n = 40 // ln
+                for k in sorted(x for x in {1, 2, n - 1, n} if 1 <= x <= n):
+                    yield frame_case(seg(one * k + b"\x01" * (40 - ln * n if k == n else 0)), "mptcp fill st%d len%d x%d" % (st, ln, k))
 
     def dhcp_code_cases(self):
         """every option-code octet of every DHCP corpus frame set to every OTHER code that occurs in the frame (and to PAD / END): two
